@@ -242,6 +242,8 @@ def one_case(ctx, mon, desc):
 def run(ctx):
     mon = install(ctx)
     rng = ctx.rng
+    from .. import longrun
+    _early = longrun.Early()
     n = ctx.budget(50_000, 1_000_000)
     done = 0
     while done < n and ctx.alive():
@@ -285,6 +287,8 @@ def run(ctx):
         one_case(ctx, mon, desc)
         mon.prev = list(desc["args"])
         done += 1
+        if not desc["identity"]:
+            _early.remember(dict(desc))
         # history: the next call shares part of its arguments with this one (same viewBox on
         # another page, same page and alignment for another viewBox, same everything but the
         # alignment) - a result must depend on the arguments of THIS call only
@@ -303,6 +307,20 @@ def run(ctx):
                      (vb_text2, par2, doc_w2, doc_h2, "after", vb_text, par, doc_w, doc_h))
             one_case(ctx, mon, d2)
             mon.prev = list(d2["args"])
+    # long memory: hundreds of DISTINCT attribute values (most of them values SVG does not define, as real
+    # documents contain) and viewBoxes, then the first valid cases of the run once more
+    from plotink import plot_utils as _pu2
+
+    def _again(d):
+        d = dict(d)
+        d.pop("previous_call", None)
+        ctx.case(["history: asked again after many other distinct requests (replay)"], None)
+        one_case(ctx, mon, d)
+    longrun.churn_then_replay(
+        ctx, _pu2, "vb_scale",
+        lambda k: ("%d 0 %d 50" % (k % 7, 100 + k), ("bogus%d slice" % k) if k % 3 else ("xMidYMid  meet%d" % k), 200 + k % 5, 100),
+        _early, _again, n_quick=3_000, n_thorough=20_000)
+    ctx.need("history: asked again after many other distinct requests", 30)
     cells = 0
     for align in ALIGNS:
         for mos in ("meet", "slice"):
